@@ -90,7 +90,7 @@ def _vfiles():
 COQPROJECT_HEAD = "-Q . EV\n-arg -w -arg -notation-overridden,-deprecated-hint-without-locality,-deprecated-syntactic-definition,-deprecated-instance-without-locality\n"
 
 
-def build(targets=None, timeout=3000):
+def build(targets=None, timeout=1500):
     """Full .vo build (never -vos/-vok) of all files or of the given .vo
     targets (with their dependencies).  -> (ok, log)"""
     with Lock("build"):
